@@ -105,3 +105,11 @@ package selftest
 
 //@ func staleContract
 //@   loop 1 invariant gone: removedVariable >= 0
+
+//@ func localInPost
+//@   requires h != nil
+//@   ensures stored: r0 == nil ==> h.x == last
+
+//@ func localInPostBad
+//@   requires h != nil
+//@   ensures stored: r0 == nil ==> h.x == last
